@@ -287,6 +287,13 @@ def run(R):
             run_case(R, level, op, "disco", 0, rng.choice((1, -1, 12345)), step_seed, False)
         else:
             run_case(R, level, op, rng.choice(("community", "version")), rng.choice((0, 0, 1)), rng.choice((1, -1)), step_seed, True, err)
+    if R.shard == 0:
+        # SNMPv1 ends a walk with an ERROR response (noSuchName): that response, too,
+        # must pass the community / version / request-id checks before it ends anything
+        for op in ("walk", "multiwalk", "table"):
+            for fault, delta in (("community", 1), ("community", -1), ("version", 1), ("version", -1), ("rid", 1), ("rid", ("abs", 0))):
+                for k in (1, 2):
+                    run_case(R, "v1", op, fault, k, delta, 12345, True, 2)
     budget.MONITOR.off()
 
 
